@@ -65,13 +65,16 @@ What is proved
   `C02.flow_invariant_partial` the invariant holds in every reachable state;
   `C02.flow_safety_partial` at every prefix the i-th response is the reference answer of the i-th request;
   `C02.flow_quiescent_partial` at quiescence every request has exactly one response and `refAnswers`,
-  when determined, equals the responses; `C02.flow_class_instance` the class is inhabited.
+  when determined, equals the responses; `C02.flow_class_instance` the class is inhabited;
+  `C02.deliver_copies` `Write` copies: the packet a reader's node is handed has the never-used id
+  `g.next`, no live tracer entry of that node is keyed by it (packet identity does not survive a hop).
 
 Not proved: `C02.flow_answers_eq_ref_full` (kept as a `def`) in general – beyond class T1 (fan-out: a
 writer feeding several readers; fan-in: a reader fed by several writers; one-to-many / many-to-one
 nodes; actions returning their input packet, several or no packets) the invariant needs rows with
 several cells and per-reader FIFOs mixing several writers; and, inside T1, that the fuel `next + 1` of
-`refAnswers` always suffices (log-order invariant: derived ids are larger than their parent's).
+`refAnswers` always suffices: `C02.flow_quiescent_ordered_partial` proves it from the log-order
+invariant `FlowInv.LogOrd` (derived ids are larger than their parent's), whose preservation is open.
 Both are checked on every run of `bin/check C02` instead: `S1` after every step, `F…`/`M1` at the end.
 The statement requires the source to be linked (a request written to an unlinked source is never
 answered and has no reference answer).
@@ -84,7 +87,7 @@ import Uniflow.Proofs.ATracer
 import Uniflow.Proofs.NodeProtocol
 import Uniflow.Props.C01
 import Uniflow.Proofs.Flow
-import Uniflow.Proofs.FlowInv14
+import Uniflow.Proofs.FlowInv16
 
 open Uniflow.Tracer Uniflow.Node Uniflow.NodeSpec
 
@@ -681,6 +684,49 @@ theorem C02.flow_quiescent_partial (N : Nat) (links : List (Nat × List Tgt)) (e
     ∀ l, refAnswers (runExt (initG (List.replicate N .oneToOne) links) es) = some l →
       l = (runExt (initG (List.replicate N .oneToOne) links) es).resp :=
   Uniflow.FlowInv.FIe_quiescent_ref N links hwf _
+    (Uniflow.FlowInv.FIe_runExt N links hwf es _ hes (Uniflow.FlowInv.FIe_init N links hwf))
+
+open Uniflow.Flow in
+/-- **`Write` copies (class T1, every reachable state).** What `deliver` – the model of `Writer.Write`
+handing a packet to one linked reader – gives the node behind the reader is a packet with the id
+`g.next`, and no live tracer entry of that node (`receives`, `reader`, `sources`, `targets`, the maps the
+tracer keys by `pck.ID()`) uses that id: two requests reaching one in-port are never folded into one
+tracer entry, even when they stem from ONE packet object (an action handing its in packet to several
+outputs that fan in, a client writing one packet twice). The node contract (`C02.node_contract`,
+freshness of the ids a node is handed) rests on this. A `Writer.Write` that passes the caller's packet
+through uncopied violates it; the correspondence exercises it with `resend` (the source writes the packet
+object of its previous request again) and `rel n s k` (a one-to-many action returns its in packet on k
+outputs that lead to one in-port). -/
+theorem C02.deliver_copies (N : Nat) (links : List (Nat × List Tgt)) (es : List Ext)
+    (hwf : Uniflow.FlowInv.TreeWF N links) (hes : ∀ e ∈ es, Uniflow.FlowInv.ExtT1 e)
+    (m port key : Nat) (v : Val) (nd nd' : Node) (ev : List Ev) :
+    getNode (runExt (initG (List.replicate N .oneToOne) links) es).nodes m = some nd →
+    Uniflow.Node.step nd (.deliver port ⟨(runExt (initG (List.replicate N .oneToOne) links) es).next, v⟩) = some (nd', ev) →
+    getNode (deliver (runExt (initG (List.replicate N .oneToOne) links) es) key v (.node m port)).nodes m = some nd' ∧
+    Uniflow.Tracer.aget nd.tr.receives (runExt (initG (List.replicate N .oneToOne) links) es).next = none ∧
+    Uniflow.Tracer.aget nd.tr.reader (runExt (initG (List.replicate N .oneToOne) links) es).next = none ∧
+    Uniflow.Tracer.aget nd.tr.sources (runExt (initG (List.replicate N .oneToOne) links) es).next = none ∧
+    Uniflow.Tracer.aget nd.tr.targets (runExt (initG (List.replicate N .oneToOne) links) es).next = none := by
+  intro hn hs
+  exact ⟨(Uniflow.FlowInv.deliver_node _ key v m port nd nd' ev hn hs).1,
+    Uniflow.FlowInv.FIe_fresh N links _
+      (Uniflow.FlowInv.FIe_runExt N links hwf es _ hes (Uniflow.FlowInv.FIe_init N links hwf)) m nd hn _ (Nat.le_refl _)⟩
+
+open Uniflow.Flow in
+/-- **Fuel lemma (class T1, conditional on the log order).** If the ghost derivation tree is ordered
+(`FlowInv.LogOrd`: the copies of a write and the packets an action derives have ids larger than their
+parent's and below `next` – true by construction, every new id is `next`; its preservation along
+`runExt` is NOT proved yet) then the fuel `next + 1` of `refAnswers` suffices
+(`FlowInv.refAns_fuel_bound`) and at quiescence the executable reference IS the list of responses:
+the quiescence half of `C02.flow_answers_eq_ref_full` for class T1 in its original form. -/
+theorem C02.flow_quiescent_ordered_partial (N : Nat) (links : List (Nat × List Tgt)) (es : List Ext)
+    (hwf : Uniflow.FlowInv.TreeWF N links) (hes : ∀ e ∈ es, Uniflow.FlowInv.ExtT1 e) :
+    quiescent (runExt (initG (List.replicate N .oneToOne) links) es) = true →
+    Uniflow.FlowInv.LogOrd (runExt (initG (List.replicate N .oneToOne) links) es).log
+      (runExt (initG (List.replicate N .oneToOne) links) es).next →
+    refAnswers (runExt (initG (List.replicate N .oneToOne) links) es) =
+      some (runExt (initG (List.replicate N .oneToOne) links) es).resp :=
+  Uniflow.FlowInv.FIe_quiescent_eq N links hwf _
     (Uniflow.FlowInv.FIe_runExt N links hwf es _ hes (Uniflow.FlowInv.FIe_init N links hwf))
 
 /-- non-vacuity of class T1: source → node 0 → node 1 → sink 0 (error ports unlinked) is in the class -/
